@@ -198,6 +198,9 @@ class Norm:
                         path = b.rec["path"]
                         cur = self.req.get((path, p))
                         lvl = r["level"]
+                        # a non-identity guard on the parameter that dominates this call discharges that half locally
+                        if lvl == "norm+nonid" and self._guarded_nonzero(b, tb, [("param", p), ("init", ("deref", p))], bi):
+                            lvl = "norm"
                         if cur is None or (cur["level"] == "norm" and lvl == "norm+nonid"):
                             self.req[(path, p)] = {"level": lvl, "why": "passes `%s` (unchanged up to z-preserving maps) to %s (param %d)" % (b.local_name(p), d, ai + 1),
                                                    "direct": False, "via": (d, ai + 1)}
@@ -422,12 +425,15 @@ def rule_norm(prop, repo, N=None):
 
 
 def entry_points(F):
+    """Public pairing entry points (return Gt, take wrapper points) and the internal functions they delegate to
+    (return Fq12, take Jacobian points): an identity test in any of them must lead to `one`."""
     out = []
     for b in F.fn_bodies():
-        if b.rec.get("output") == "crate::Gt" and b.rec["path"] in F.reachable_items:
-            ins = b.rec.get("inputs") or []
-            if any(is_wrapper(x) for x in ins):
-                out.append(b)
+        ins = b.rec.get("inputs") or []
+        if b.rec.get("output") == "crate::Gt" and b.rec["path"] in F.reachable_items and any(is_wrapper(x) for x in ins):
+            out.append(b)
+        elif b.rec.get("output") == "crate::fields::fq12::Fq12" and sum(1 for x in ins if is_g(x)) >= 2 and b.rec["kind"] == "Fn":
+            out.append(b)
     return out
 
 
@@ -447,6 +453,8 @@ def rule_id_guard(prop, repo, N):
              "identity-guarded (see R-NORM)", floor=3, exhaustive=True)
     eps = entry_points(F)
     for b in eps:
+        if b.rec["path"] == "crate::pairings::pairing":
+            continue        # handled below through its to_affine() match
         R.instance()
         tb = repo.tb(b)
         atoms = paths.collect_atoms(b, tb)
